@@ -4,7 +4,7 @@ from engine.qb import (AnalysisBroken, abstract_run, estr, unwrap, cval, walk, l
 from engine.bounds import Analysis, Lin, State
 from rules.common import field_is, has_call, derives, value_sources
 
-UNITS = ['lib/log_format.c', 'lib/log_blackbox.c', 'lib/ringbuffer.c']
+UNITS = ['lib/log_format.c', 'lib/log_blackbox.c', 'lib/ringbuffer.c', 'lib/strlcpy.c']
 TECHNIQUE = ('static analysis: abstract interpretation over linear inequalities for every encoder/decoder store, per-directive '
              'finite evaluation of both switch tables (bytes appended vs. consumed), upward-exposed-use analysis of the directive loops')
 DECIDES = ('Decides that every store of the encoder stays within max_len and every store of the decoder within str_len / the '
@@ -24,8 +24,9 @@ RULES = {
     'R10': 'the decoder appends at its own write position: nothing is added to the output with a function that looks for the end of the string (strcat, strlcat and their wrappers) - a "%c" argument of 0 puts a NUL into the output, and text appended "at the end of the string" lands on top of what was written behind it',
     'R11': 'a conversion the encoder does not know ends the argument list: the edge of its directive switch that no case takes leads out of the function, not back into the scanning loop - how much an unknown conversion takes from the list is unknown, and every argument behind it would be taken for something it is not (a number for the pointer of a %s)',
     'R12': 'the decoder steps over what the encoder stored: behind a string argument the data position advances by the length of the stored string (a strlen of the stored bytes, plus its terminator) - not by what printing it produced, which a field width makes longer and a precision shorter; every later argument would be read from the wrong place',
+    'R13': 'the bounded copy the encoder and the decoder rely on keeps its bound: every write of the library\'s own strlcpy (compiled in where the C library has none) lies below dest + maxlen - a source of exactly maxlen characters does not put its terminator one byte behind the record / the text buffer',
 }
-FLOORS = {'R1': 12, 'R2': 20, 'R3': 20, 'R4': 2, 'R5': 12, 'R6': 1, 'R7': 1, 'R8': 1, 'R9': 2, 'R10': 1, 'R11': 1, 'R12': 1}
+FLOORS = {'R1': 12, 'R2': 20, 'R3': 20, 'R4': 2, 'R5': 12, 'R6': 1, 'R7': 1, 'R8': 1, 'R9': 2, 'R10': 1, 'R11': 1, 'R12': 1, 'R13': 2}
 
 
 def strl_summary(an, ev, st):
@@ -245,6 +246,7 @@ def run(ctx):
     r10(ctx, d)
     r11(ctx, e)
     r12(ctx, d)
+    r13(ctx)
 
 
 def _switch_block(f):
@@ -785,3 +787,19 @@ def r12(ctx, d):
                   'behind a string argument the data position advances by strlen(stored bytes) + 1',
                   'behind a string argument the data position advances by %s, not by the length of the stored string: with a field width (or a precision) the printed length differs from the stored one and every later argument is read from the wrong place'
                   % estr(st.rhs))
+
+
+def r13(ctx):
+    prog = ctx.prog
+    if not prog.has_fn('strlcpy'):
+        ctx.ok('R13', 'strlcpy:from-the-C-library', 'lib/strlcpy.c', 'this configuration takes strlcpy from the C library')
+        return
+    h = prog.fn('strlcpy')
+    dest, cap = h.params[0]['n'], h.params[2]['n']
+    an = Analysis(prog, h, {dest: Lin.term(cap)}, init=[]).run()
+    n = 0
+    for (ev, key, text, ok) in an.obligations:
+        n += 1
+        ctx.check('R13', 'strlcpy:%s' % key, ok, ev, 'entailed', text + ' - the bounded copy writes behind its bound: a format, a string argument or a decoded text of exactly the size of its destination puts a NUL one byte behind the reserved record space / the text buffer')
+    if n < 2:
+        raise AnalysisBroken('strlcpy: only %d write obligations found' % n)
